@@ -1,4 +1,5 @@
 (* Run/C39.v -- case decoder / observable encoder for the C39 correspondence.
+   SINGLE-CRASH FORMAT
    case = ( (scheme archive snaps) (C J S) OPS (cutOp cutKind cutBlock) (DUR SNAPROOT) )
      tree: genesis 0; canonical block i (1..C) on i-1; side block 100+k (1..S) on J
            (k = 1) or 100+k-1, number J+k
@@ -10,8 +11,15 @@
    obs  = ( 1 0 ERRS frozen OBS1 class2 OBS2 )  or  ( 1 code ) when start-up fails
      OBS  = ( (head_block head_header head_snap) has_state frozen CANON KNOWN )
      CANON = canon[0..maxn+1] each (id) or (); KNOWN = one bit per block id, ascending
-   The leading 1 is the harness's "DATA recomputed = DATA of the case" flag. *)
-From GV Require Import Lib.Sx Chain.Tree Chain.Canonical Chain.Restart.
+   The leading 1 is the harness's "DATA recomputed = DATA of the case" flag.
+   MULTI-SESSION FORMAT (side block ids 1000+k)
+   case = ( (scheme archive snaps) (C J S) SESSIONS ), SESSION = ( OPS (cutKind cutBlock) DATA )
+   obs  = ( 1 SESSOBS ... (class OBS AL) )
+     SESSOBS = ( ERRS frozen 0 OBS AL class OBS AL ) | ( ERRS frozen code )  (start-up failed)
+     AL = (disk_layer_id history_head) of the path database, (0 0) in the hash scheme;
+     after each restart the blocks between the restart head and the old head block marker
+     are re-imported; after the last session the remaining canonical blocks. *)
+From GV Require Import Lib.Sx Chain.Tree Chain.Canonical Chain.Restart Chain.RestartPath.
 Local Open Scope N_scope.
 
 Definition dec_op (s : sx) : option sop :=
@@ -36,11 +44,12 @@ Definition rerr_code (e : rerr) : Z :=
   | ROpenGap => 50 | RFuel => 61 | RReset => 62 | RNilDeref => 63 | RUnsupported => 64
   end%Z.
 
-Definition mk_tree (C J S : N) : list (N * block) :=
+Definition mk_tree_b (base C J S : N) : list (N * block) :=
   (0, mkblock 4294967295 0 [] []) ::
   map (fun k => let i := N.of_nat k in (i, mkblock (i - 1) i [] [])) (seq 1 (N.to_nat C)) ++
   map (fun k => let i := N.of_nat k in
-                (100 + i, mkblock (if i =? 1 then J else 100 + i - 1) (J + i) [] [])) (seq 1 (N.to_nat S)).
+                (base + i, mkblock (if i =? 1 then J else base + i - 1) (J + i) [] [])) (seq 1 (N.to_nat S)).
+Definition mk_tree := mk_tree_b 100.
 
 Definition obs_of (T : tree) (maxn : N) (ids : list N) (p : pst) : sx :=
   let st := kv p in
@@ -50,6 +59,95 @@ Definition obs_of (T : tree) (maxn : N) (ids : list N) (p : pst) : sx :=
        SL (map (fun k => sopt sn (canon st (N.of_nat k))) (seq 0 (N.to_nat maxn + 2)));
        SL (map (fun h => sbool (is_known st h)) ids) ].
 
+Definition cut_of (kind cblock : N) : cut :=
+  if kind =? 2 then CutBlock cblock else if kind =? 3 then CutHead cblock else CutAfter.
+
+Definition run_v1 (sch snaps nC nJ nS : N) (ops : list sop) (cutop : nat) (kind cblock : N) (dur sr : list N) : sx :=
+  let blocks := mk_tree nC nJ nS in
+  let T := tree_of_list blocks in
+  let ids := map fst blocks in
+  let maxn := if (0 <? nS) && (nC <? nJ + nS) then nJ + nS else nC in
+  let fuel := (2 * N.to_nat maxn + 2 * length blocks + 20)%nat in
+  let cfg := mkcfg (sch =? 1) (if snaps =? 1 then hd_error sr else None) false in
+  match run_to_cut T cfg fuel (mkp genesis_db 0) (firstn (S cutop) ops) (cut_of kind cblock) with
+  | (RErr e, _) => SL [SI 1; SI (rerr_code e)]
+  | (ROk p, errs) =>
+    let pc := crash p (fun h => mem h dur) in
+    match new_blockchain T cfg fuel pc with
+    | RErr e => SL [SI 1; SI (rerr_code e)]
+    | ROk p2 =>
+      let hb := hd_block (kv p2) in
+      let a := if hb <=? 100 then hb else nJ in
+      let rest := map (fun k => a + 1 + N.of_nat k) (seq 0 (N.to_nat (nC - a))) in
+      let '(p3, e3) := reimport T fuel p2 rest in
+      SL [ SI 1; SI 0; SL (map (fun e => SI (err_code e)) errs); sn (frozen p);
+           obs_of T maxn ids p2; SI (err_code e3); obs_of T maxn ids p3 ]
+    end
+  end.
+
+(* one session of the multi-session format *)
+Definition session : Type := (list sop * N * N * list N * list N)%type.
+
+Definition dec_session (s : sx) : option session :=
+  match s with
+  | SL [os; SL [kk; cb]; SL [sdur; ssr]] =>
+    match sx_list_of dec_op os, sx_N kk, sx_N cb, sx_list_of sx_N sdur, sx_list_of sx_N ssr with
+    | Some ops, Some kind, Some cblock, Some dur, Some sr => Some (ops, kind, cblock, dur, sr)
+    | _, _, _, _, _ => None
+    end
+  | _ => None
+  end.
+
+Definition al_of (path : bool) (d : pdb) : sx :=
+  if path then SL [sn (pd_did d); sn (pd_fh d)] else SL [SI 0; SI 0].
+
+Fixpoint run_sessions (T : tree) (path snaps : bool) (fuel : nat) (maxn : N) (ids : list N)
+         (p : pst) (d : pdb) (ss : list session) : list sx * option (pst * pdb) :=
+  match ss with
+  | [] => ([], Some (p, d))
+  | (ops, kind, cblock, dur, sr) :: r =>
+    let cf := mkcfg path (if snaps then hd_error sr else None) false in
+    match run_session T cf fuel p d ops (cut_of kind cblock) with
+    | (RErr e, errs) => ([SL [SL (map (fun e => SI (err_code e)) errs); SI (rerr_code e)]], None)
+    | (ROk (p1, d1), errs) =>
+      let serrs := SL (map (fun e => SI (err_code e)) errs) in
+      let d2 := if path && (kind =? 1) then pd_stop d1 else d1 in
+      let pc := crash p1 (fun h => mem h dur) in
+      match new_blockchain T cf fuel pc with
+      | RErr e => ([SL [serrs; sn (frozen p1); SI (rerr_code e)]], None)
+      | ROk p2 =>
+        let d3 := if path then pd_reopen d2 else d2 in
+        let lost := match path_up T fuel (hd_block (kv pc)) (hd_block (kv p2)) [] with
+                    | Some l => l | None => [] end in
+        let '(p3, e3) := reimport T fuel p2 lost in
+        let d4 := if path then pd_grow (max_avail T (kv p3)) d3 else d3 in
+        let o := SL [ serrs; sn (frozen p1); SI 0; obs_of T maxn ids p2; al_of path d3;
+                      SI (err_code e3); obs_of T maxn ids p3; al_of path d4 ] in
+        let '(rest, fin) := run_sessions T path snaps fuel maxn ids p3 d4 r in
+        (o :: rest, fin)
+      end
+    end
+  end.
+
+Definition run_v2 (sch snaps nC nJ nS : N) (ss : list session) : sx :=
+  let blocks := mk_tree_b 1000 nC nJ nS in
+  let T := tree_of_list blocks in
+  let ids := map fst blocks in
+  let maxn := if (0 <? nS) && (nC <? nJ + nS) then nJ + nS else nC in
+  let fuel := (2 * N.to_nat maxn + 2 * length blocks + 20)%nat in
+  let path := sch =? 1 in
+  let '(obs, fin) := run_sessions T path (snaps =? 1) fuel maxn ids (mkp genesis_db 0) pd0 ss in
+  match fin with
+  | None => SL (SI 1 :: obs)
+  | Some (p, d) =>
+    let hb := hd_block (kv p) in
+    let a := if hb <=? 1000 then hb else nJ in
+    let rest := map (fun k => a + 1 + N.of_nat k) (seq 0 (N.to_nat (nC - a))) in
+    let '(p3, e3) := reimport T fuel p rest in
+    let d3 := if path then pd_grow (max_avail T (kv p3)) d else d in
+    SL (SI 1 :: obs ++ [SL [SI (err_code e3); obs_of T maxn ids p3; al_of path d3]])
+  end.
+
 Definition C39_run (c : sx) : sx :=
   match c with
   | SL [SL [sch; arch; snaps]; SL [sC; sJ; sS]; os; SL [ck; kk; cb]; SL [sdur; ssr]] =>
@@ -57,31 +155,16 @@ Definition C39_run (c : sx) : sx :=
     | Some sch, Some snaps, Some nC, Some nJ, Some nS, Some ops =>
       match sx_nat ck, sx_N kk, sx_N cb, sx_list_of sx_N sdur, sx_list_of sx_N ssr with
       | Some cutop, Some kind, Some cblock, Some dur, Some sr =>
-        let blocks := mk_tree nC nJ nS in
-        let T := tree_of_list blocks in
-        let ids := map fst blocks in
-        let maxn := if (0 <? nS) && (nC <? nJ + nS) then nJ + nS else nC in
-        let fuel := (2 * N.to_nat maxn + 2 * length blocks + 20)%nat in
-        let cfg := mkcfg (sch =? 1) (if snaps =? 1 then hd_error sr else None) false in
-        let ct := if kind =? 2 then CutBlock cblock else if kind =? 3 then CutHead cblock else CutAfter in
-        match run_to_cut T cfg fuel (mkp genesis_db 0) (firstn (S cutop) ops) ct with
-        | (RErr e, _) => SL [SI 1; SI (rerr_code e)]
-        | (ROk p, errs) =>
-          let pc := crash p (fun h => mem h dur) in
-          match new_blockchain T cfg fuel pc with
-          | RErr e => SL [SI 1; SI (rerr_code e)]
-          | ROk p2 =>
-            let hb := hd_block (kv p2) in
-            let a := if hb <=? 100 then hb else nJ in
-            let rest := map (fun k => a + 1 + N.of_nat k) (seq 0 (N.to_nat (nC - a))) in
-            let '(p3, e3) := reimport T fuel p2 rest in
-            SL [ SI 1; SI 0; SL (map (fun e => SI (err_code e)) errs); sn (frozen p);
-                 obs_of T maxn ids p2; SI (err_code e3); obs_of T maxn ids p3 ]
-          end
-        end
+        run_v1 sch snaps nC nJ nS ops cutop kind cblock dur sr
       | _, _, _, _, _ => SErr 2
       end
     | _, _, _, _, _, _ => SErr 1
+    end
+  | SL [SL [sch; arch; snaps]; SL [sC; sJ; sS]; ss] =>
+    match sx_N sch, sx_N snaps, sx_N sC, sx_N sJ, sx_N sS, sx_list_of dec_session ss with
+    | Some sch, Some snaps, Some nC, Some nJ, Some nS, Some sessions =>
+      run_v2 sch snaps nC nJ nS sessions
+    | _, _, _, _, _, _ => SErr 3
     end
   | _ => SErr 0
   end.
